@@ -12,18 +12,26 @@ func init() {
 		Level: "exploration",
 		Rule: "random histories over six foreign-key wirings (fk index nullable / non-nullable / cascade-delete; fk constraint nullable or not with cascade none / delete / create-update; self-referencing store) " +
 			"with ids containing quotes, backslash escapes, newlines, spaces and filter keywords; model predicts accept / reject class and the exact cascade closure; structural monitor compares back-reference buckets, " +
-			"dangling references and the surviving id set after every transaction; Part (b): a store whose fk index points at itself (self references, cycles) plus a second store referencing it, with ids of 32766-32768 bytes, judged without a model after every operation: an error changed nothing; every reference names an existing entity listed back by its target; every back-reference entry names an existing referrer. non-trivial = distinct (op kind, store, outcome, population class, configuration) tuples",
+			"dangling references and the surviving id set after every transaction; Part (b): a store whose fk index points at itself (self references, cycles) plus a second store referencing it, with ids of 32766-32768 bytes, judged without a model after every operation: an error changed nothing; every reference names an existing entity listed back by its target; every back-reference entry names an existing referrer. Part (c): two sibling child stores that each declare an fk constraint of the same name to the same target store: after every operation (incl. deletes of the target) no stored reference names a missing entity. non-trivial = distinct (op kind, store, outcome, population class, configuration) tuples",
 		Assumptions: []string{"cascade-delete cycles are not driven (unbounded recursion, liveness)", "CascadeCreateUpdate declares no enforcement on delete: dangling boss references there are predicted, not reported"},
 		Plan: func(tier core.Tier, seed int64) int {
 			if tier == core.Thorough {
-				return 96000 + c04SelfCases*20
+				return 96000 + c04SelfCases*20 + 24*10
 			}
-			return 720 + c04SelfCases
+			return 720 + c04SelfCases + 24
 		},
 		Run: func(c *core.Ctx, idx int) {
 			nHist := 720
 			if c.Tier == core.Thorough {
 				nHist = 96000
+			}
+			nSelf := c04SelfCases
+			if c.Tier == core.Thorough {
+				nSelf *= 20
+			}
+			if idx >= nHist+nSelf {
+				siblingScenario(c, idx-nHist-nSelf, "C04") // both sibling child stores carry an fk constraint of the same name to one target
+				return
 			}
 			if idx >= nHist {
 				c04Self(c, idx-nHist)
